@@ -158,7 +158,7 @@ def _lookup(M):
 
 def eigh(M, UPLO="L"):
     if nd.is_concrete(M):
-        return np.linalg.eigh(nd.to_concrete(M))
+        return nd._symbolic_result(np.linalg.eigh(nd.to_concrete(M)))
     if UF["on"]:
         w, V = _eigh_uf(M)
         return SymNd(list(w)), V.copy()
@@ -171,7 +171,7 @@ def eigh(M, UPLO="L"):
 
 def eigvalsh(M, UPLO="L"):
     if nd.is_concrete(M):
-        return np.linalg.eigvalsh(nd.to_concrete(M))
+        return nd._symbolic_result(np.linalg.eigvalsh(nd.to_concrete(M)))
     hit = _lookup(M)
     if hit is None:
         raise core.StubMiss("eigvalsh called on a symbolic matrix that is not a registered spectral parametrisation")
@@ -184,7 +184,7 @@ def eig(M):
     The stub therefore answers with an allowed non-orthogonal basis whenever two neighbouring eigenvalues coincide:
     column i+1 := (v_i + v_{i+1})/sqrt(2) if w_i == w_{i+1} else v_{i+1}."""
     if nd.is_concrete(M):
-        return np.linalg.eig(nd.to_concrete(M))
+        return nd._symbolic_result(np.linalg.eig(nd.to_concrete(M)))
     hit = _lookup(M)
     if hit is None:
         raise core.StubMiss("eig called on a symbolic matrix that is not a registered spectral parametrisation")
@@ -205,7 +205,7 @@ def eig(M):
 
 def eigvals(M):
     if nd.is_concrete(M):
-        return np.linalg.eigvals(nd.to_concrete(M))
+        return nd._symbolic_result(np.linalg.eigvals(nd.to_concrete(M)))
     hit = _lookup(M)
     if hit is None:
         raise core.StubMiss("eigvals on unregistered symbolic matrix")
